@@ -176,6 +176,12 @@ class Report:
             "trusted_base": self.trusted_base or [
                 "CPython ast / re._parser", "sa.consteval whitelist", "idiom recognisers (fail closed)"],
             "exhaustive": True,
+            "exhaustive_over": "the constructs of /repo's current source that the rules' preconditions match (every function, call site, table "
+                               "cell, state x character atom): none is sampled.  Rule instances that name an *input* (a token stream, a "
+                               "character stream, a name, an attribute list) are verdicts on representative inputs interpreted from the "
+                               "source (DESIGN 3.1 E and K): they partition the input space only where the code touches its input "
+                               "through comparisons with constants; elsewhere they are necessary conditions on the chosen representatives, "
+                               "not a proof for all inputs.",
         }
         if self.selftest:
             cov["selftest"] = self.selftest
